@@ -361,6 +361,11 @@ fn exchange_programs() -> Vec<(String, String)> {
     ] {
         v.push((format!("{pre}{body}{post}"), desc.to_string()));
     }
+    // a closure whose own layout is larger than the 64 words the WASM generator declares for an unresolved callee: the
+    // storage must hold the whole layout on every call
+    for (len, desc) in [(70usize, "a closure with a 70-sample delay line (72 words) and a counter behind it"), (8, "a closure with an 8-sample delay line and a counter behind it (control)"), (200, "a closure with a 200-sample delay line and a counter behind it")] {
+        v.push((format!("fn counter(inc){{\n  self + inc\n}}\nfn make(n){{\n  |x| {{ delay({len}.0, x, 1.0) * n + counter(1.0) }}\n}}\nlet f = make(2.0)\nfn dsp(){{\n  f(1.0)\n}}\n"), desc.to_string()));
+    }
     v
 }
 /// every `Type` variant with empty / one-element / two-element aggregates (the hand-written serde pair of types/serde_impl.rs)
